@@ -324,10 +324,15 @@ pub fn hand(b: &mut Builder) {
     c7.conv = Conv::TryFrom { src: Desc::Tuple(vec![b.p(), sc(Sc::U8)]), fn_id: b.fid(), by_ref: false };
     c7.default = Dflt::Trait;
     c7.map = Some(b.fid());
+    let mut c9 = b.f("conv_from_json");
+    c9.conv = Conv::From { src: Desc::Json, fn_id: b.fid(), by_ref: false };
+    let mut c10 = b.f("conv_try_json_ref");
+    c10.conv = Conv::TryFrom { src: Desc::Vec(bx(Desc::Json)), fn_id: b.fid(), by_ref: true };
+    c10.default = Dflt::Trait;
     let mut c8 = b.f("mapped_skipped");
     c8.skip = true;
     c8.map = Some(b.fid());
-    let s = b.strukt("HConv", None, Deny::No, Validate::No, vec![c1, c2, c3, c4, c5, c6, c7, c8]);
+    let s = b.strukt("HConv", None, Deny::No, Validate::No, vec![c1, c2, c3, c4, c5, c6, c7, c8, c9, c10]);
     b.program("struct_conv", s.clone());
     b.program("vec_struct_conv", Desc::Vec(bx(s)));
 
@@ -421,6 +426,37 @@ pub fn hand(b: &mut Builder) {
         TypeKind::Tagged { tag: "event".into(), rename_all: Some(RenameAll::Lower), deny: Deny::No, validate: Validate::No, variants: vs },
     );
     b.program("enum_tagged_self_rename", e);
+
+    // struct-like variants without any field, and an internally tagged enum of unit variants only
+    let variants = vec![
+        VariantDef { ident: "Ping".into(), rename: None, rename_all: None, fields: Some(vec![]) },
+        VariantDef { ident: "Pong".into(), rename: None, rename_all: None, fields: None },
+        VariantDef { ident: "Data".into(), rename: None, rename_all: None, fields: Some(vec![b.f("x")]) },
+    ];
+    let e = b.add_type(
+        "HEmptyVariantDeny",
+        TypeKind::Tagged { tag: "kind".into(), rename_all: None, deny: Deny::Default, validate: Validate::No, variants: variants.clone() },
+    );
+    b.program("enum_empty_variant_deny", e.clone());
+    b.program("vec_enum_empty_variant_deny", Desc::Vec(bx(e)));
+    let id = b.fid();
+    let e = b.add_type(
+        "HEmptyVariantDenyCustom",
+        TypeKind::Tagged { tag: "kind".into(), rename_all: Some(RenameAll::Lower), deny: Deny::Custom(id), validate: Validate::No, variants },
+    );
+    b.program("enum_empty_variant_deny_custom", e);
+    let variants = vec![
+        VariantDef { ident: "Start".into(), rename: None, rename_all: None, fields: None },
+        VariantDef { ident: "Halt".into(), rename: Some("HALT".into()), rename_all: None, fields: None },
+        VariantDef { ident: "KeepGoing".into(), rename: None, rename_all: None, fields: None },
+    ];
+    let v = b.fid();
+    let e = b.add_type(
+        "HTaggedUnitOnly",
+        TypeKind::Tagged { tag: "type".into(), rename_all: Some(RenameAll::Camel), deny: Deny::No, validate: Validate::SameErr(v), variants },
+    );
+    b.program("enum_tagged_unit_only", e.clone());
+    b.program("hashmap_enum_tagged_unit_only", Desc::HashMap(KeyTy::Str, bx(e)));
 
     // tagged, as in tests/attributes/tag.rs: unit + struct-like variants, shared field names
     let variants = vec![
@@ -893,7 +929,11 @@ pub fn uniform(program_seed: u64, n: usize) -> Catalogue {
             let mut variants = vec![];
             for v in 0..nv {
                 let vra = gen_rename_all(&mut rng);
-                let fields = if rng.chance(1, 5) { None } else { Some(mk_fields(&mut b, &mut rng, vra)) };
+                let fields = match rng.below(10) {
+                    0 | 1 => None,
+                    2 => Some(vec![]),
+                    _ => Some(mk_fields(&mut b, &mut rng, vra)),
+                };
                 variants.push(VariantDef { ident: VARIANTS[v].to_string(), rename: None, rename_all: vra, fields });
             }
             let deny = gen_deny(&mut b, &mut rng);
